@@ -10,6 +10,7 @@ import Valida.Tree
 import Valida.Html
 import Valida.Repr
 import Valida.Report
+import Valida.TypeFmt
 open Lean (Json)
 open Valida Valida.Codec ValidaGen
 
@@ -299,6 +300,12 @@ def handle (j : Json) : P Json := do
       match c with
       | .leaf l => pure (encOutcome (fun (s : String) => Json.str s) (Repr.leafRepr l))
       | _ => throw "cond_repr: leaf expected"
+  | "type_fmt" => do
+      let cs ← (← arr a[1]!).toList.mapM decCond
+      let ls ← cs.mapM (fun c => match c with
+        | Cond.leaf l => pure l
+        | _ => throw "type_fmt: leaf expected")
+      pure (encOutcome (fun (s : String) => Json.str s) (TypeFmt.format ls))
   | "report" => do
       let rules ← (← arr a[1]!).toList.mapM decRule
       let doc ← decVal a[2]!
